@@ -63,6 +63,8 @@ def len_term(seq):
             return const(0)
         if seq[0] == "reserved":
             return len_term(seq[1])
+        if seq[0] == "setlen":
+            return seq[2]
         if seq[0] == "appended":
             piece = seq[2]
             if piece[0] == "slice":
@@ -940,6 +942,36 @@ def m_reserve(px, st, fr, ev):
         return None
     old = px._read(st, a[1], a[2])
     new = ("reserved", old, ev["args"][1])
+
+    def do(s):
+        px._write(s, a[1], a[2], new)
+    return val(UNIT, do=do)
+
+
+@model("tokio::task::block_in_place", reason="block_in_place(f) runs f on the current thread and returns its result")
+def m_block_in_place(px, st, fr, ev):
+    f = ev["args"][0]
+    body = closure_body(f)
+    if body is None or body not in px.facts.bodies:
+        return None
+    return [{"inline": body, "args": call_args(f, [])}]
+
+
+@model("std::vec::Vec::<T, A>::as_mut_ptr", "std::vec::Vec::<T, A>::as_ptr", "core::slice::<impl [T]>::as_ptr", "core::slice::<impl [T]>::as_mut_ptr",
+       reason="raw pointer to the buffer; the Vec value itself is unchanged by taking it")
+def m_as_ptr(px, st, fr, ev):
+    v = deref_val(px, st, ev["args"][0], depth=1)
+    return val(("ptr_of", v))
+
+
+@model("std::vec::Vec::<T, A>::set_len", reason="set_len(n): same allocation, length n (unsafe: n <= capacity is a census obligation)")
+def m_set_len(px, st, fr, ev):
+    a = ev["args"][0]
+    if a[0] != "ref":
+        return None
+    old = px._read(st, a[1], a[2])
+    new = ("setlen", old, ev["args"][1])
+    ev["set_len"] = {"old": old, "n": ev["args"][1]}
 
     def do(s):
         px._write(s, a[1], a[2], new)
